@@ -291,6 +291,36 @@ Proof.
   destruct (scan_total2 _ HP) as [s [E I]]. rewrite E. cbn. exists s. split; [reflexivity|assumption].
 Qed.
 
+(* an Array-of-Hashes / a hash of hashes with the attribute named *)
+Lemma extremum_aoh2 : forall node_str invert attr i els x,
+  node_is_aoh true (NSeq i els) = true ->
+  all_P P (map (aoh_member node_str attr x) (enumerate els)) ->
+  exists s,
+    extremum lit re_search node_str cmp invert [attr] (NSeq i els) x =
+      Ok (if invert then s_discard s else s_match s) /\
+    Inv2 (map (aoh_member node_str attr x) (enumerate els)) s.
+Proof.
+  intros node_str invert attr i els x Haoh HP. unfold extremum. cbn [List.length Nat.ltb Nat.leb].
+  cbv iota. rewrite Haoh.
+  rewrite (foldM_map_ext _ _ _ gstep (aoh_member node_str attr x) (aoh_step_gstep lit re_search node_str cmp attr x)).
+  destruct (scan_total2 _ HP) as [s [E I]]. rewrite E. cbn. exists s. split; [reflexivity|assumption].
+Qed.
+
+Lemma extremum_hoh2 : forall node_str invert attr i kvs x,
+  forallb (fun kv => is_map (snd kv)) kvs = true ->
+  all_P P (map (hoh_member node_str attr x) kvs) ->
+  exists s,
+    extremum lit re_search node_str cmp invert [attr] (NMap i kvs) x =
+      Ok (if invert then s_discard s else s_match s) /\
+    Inv2 (map (hoh_member node_str attr x) kvs) s.
+Proof.
+  intros node_str invert attr i kvs x Hhoh HP. unfold extremum. cbn [List.length Nat.ltb Nat.leb].
+  cbv iota. cbn [node_is_aoh]. cbv iota.
+  rewrite (foldM_map_ext_in _ _ (hoh_step lit re_search node_str cmp attr kvs x) gstep (hoh_member node_str attr x) kvs).
+  - destruct (scan_total2 _ HP) as [s [E I]]. rewrite E. cbn. exists s. split; [reflexivity|assumption].
+  - intros s kv Hi. apply hoh_step_gstep. rewrite forallb_forall in Hhoh. apply (Hhoh _ Hi).
+Qed.
+
 End Scan2.
 
 (* ---------- ints mixed with floats ---------- *)
@@ -378,20 +408,11 @@ Definition mixed_selected (cmp : smethod) (invert : bool) (ms : list mem) (c : c
     else
       c = c0 \/ exists w, In (Some w, c) post /\ mixed_eq b w = true.
 
-Theorem extremum_list_mixed : forall cmp invert i els x,
-  cmp = MGt \/ cmp = MLt ->
-  node_is_aoh true (NSeq i els) = false ->
-  (forall v c, In (Some v, c) (map (list_member node_str x) (enumerate els)) -> mixed_num v) ->
-  exists res,
-    extremum lit re_search node_str cmp invert [] (NSeq i els) x = Ok res /\
-    forall c, In c res <-> mixed_selected cmp invert (map (list_member node_str x) (enumerate els)) c.
+Lemma mixed_of_Inv2 : forall cmp (invert : bool) ms s,
+  Inv2 cmp (kind_le SKInt) mixed_eq mixed_num ms s ->
+  forall c, In c (if invert then s_discard s else s_match s) <-> mixed_selected cmp invert ms c.
 Proof.
-  intros cmp invert i els x Hc Haoh HP.
-  destruct (extremum_list2 lit re_search cmp (kind_le SKInt) (kind_leb SKInt) (kind_leb_le SKInt)
-              (kind_le_refl SKInt) (kind_le_trans SKInt) (kind_le_total SKInt) mixed_eq mixed_num
-              mixed_not_none (fun a b Pa Pb => mixed_cmp cmp a b Hc Pa Pb) mixed_equals
-              node_str invert i els x Haoh HP) as [s [E I]].
-  eexists. split; [exact E|]. intros c. unfold mixed_selected.
+  intros cmp invert ms s I c. unfold mixed_selected.
   destruct I as [[Hno [Hv [Hm Hd]]]|[pre [b [c0 [post [Hms [Hv [Pb [Hpre [Hpost [Hm Hd]]]]]]]]]]].
   - split.
     + intros Hi. left. split; [assumption|]. destruct invert.
@@ -400,7 +421,7 @@ Proof.
     + intros [[_ H]|[pre [b [c0 [post [[Hms _] _]]]]]].
       * destruct invert; [apply Hd; exact H|destruct H].
       * exfalso. apply (Hno b c0). rewrite Hms. apply in_app_iff. right; left; reflexivity.
-  - assert (Huniq : forall pre' b' c0' post', mixed_split cmp (map (list_member node_str x) (enumerate els)) pre' b' c0' post' ->
+  - assert (Huniq : forall pre' b' c0' post', mixed_split cmp ms pre' b' c0' post' ->
                                               pre' = pre /\ b' = b /\ c0' = c0 /\ post' = post).
     { intros pre' b' c0' post' [Hms' [Hpre' Hpost']].
       assert (Hlen : List.length pre' = List.length pre).
@@ -450,6 +471,54 @@ Proof.
            apply (in_eq_later mixed_eq). exact Hsel.
 Qed.
 
+Theorem extremum_list_mixed : forall cmp invert i els x,
+  cmp = MGt \/ cmp = MLt ->
+  node_is_aoh true (NSeq i els) = false ->
+  (forall v c, In (Some v, c) (map (list_member node_str x) (enumerate els)) -> mixed_num v) ->
+  exists res,
+    extremum lit re_search node_str cmp invert [] (NSeq i els) x = Ok res /\
+    forall c, In c res <-> mixed_selected cmp invert (map (list_member node_str x) (enumerate els)) c.
+Proof.
+  intros cmp invert i els x Hc Haoh HP.
+  destruct (extremum_list2 lit re_search cmp (kind_le SKInt) (kind_leb SKInt) (kind_leb_le SKInt)
+              (kind_le_refl SKInt) (kind_le_trans SKInt) (kind_le_total SKInt) mixed_eq mixed_num
+              mixed_not_none (fun a b Pa Pb => mixed_cmp cmp a b Hc Pa Pb) mixed_equals
+              node_str invert i els x Haoh HP) as [s [E I]].
+  eexists. split; [exact E|]. apply (mixed_of_Inv2 cmp invert _ s I).
+Qed.
+
+Theorem extremum_aoh_mixed : forall cmp invert attr i els x,
+  cmp = MGt \/ cmp = MLt ->
+  node_is_aoh true (NSeq i els) = true ->
+  (forall v c, In (Some v, c) (map (aoh_member node_str attr x) (enumerate els)) -> mixed_num v) ->
+  exists res,
+    extremum lit re_search node_str cmp invert [attr] (NSeq i els) x = Ok res /\
+    forall c, In c res <-> mixed_selected cmp invert (map (aoh_member node_str attr x) (enumerate els)) c.
+Proof.
+  intros cmp invert attr i els x Hc Haoh HP.
+  destruct (extremum_aoh2 lit re_search cmp (kind_le SKInt) (kind_leb SKInt) (kind_leb_le SKInt)
+              (kind_le_refl SKInt) (kind_le_trans SKInt) (kind_le_total SKInt) mixed_eq mixed_num
+              mixed_not_none (fun a b Pa Pb => mixed_cmp cmp a b Hc Pa Pb) mixed_equals
+              node_str invert attr i els x Haoh HP) as [s [E I]].
+  eexists. split; [exact E|]. apply (mixed_of_Inv2 cmp invert _ s I).
+Qed.
+
+Theorem extremum_hoh_mixed : forall cmp invert attr i kvs x,
+  cmp = MGt \/ cmp = MLt ->
+  forallb (fun kv => is_map (snd kv)) kvs = true ->
+  (forall v c, In (Some v, c) (map (hoh_member node_str attr x) kvs) -> mixed_num v) ->
+  exists res,
+    extremum lit re_search node_str cmp invert [attr] (NMap i kvs) x = Ok res /\
+    forall c, In c res <-> mixed_selected cmp invert (map (hoh_member node_str attr x) kvs) c.
+Proof.
+  intros cmp invert attr i kvs x Hc Hh HP.
+  destruct (extremum_hoh2 lit re_search cmp (kind_le SKInt) (kind_leb SKInt) (kind_leb_le SKInt)
+              (kind_le_refl SKInt) (kind_le_trans SKInt) (kind_le_total SKInt) mixed_eq mixed_num
+              mixed_not_none (fun a b Pa Pb => mixed_cmp cmp a b Hc Pa Pb) mixed_equals
+              node_str invert attr i kvs x Hh HP) as [s [E I]].
+  eexists. split; [exact E|]. apply (mixed_of_Inv2 cmp invert _ s I).
+Qed.
+
 Lemma kgood_total : forall cmp a b, good cmp (kind_le SKInt) a b \/ good cmp (kind_le SKInt) b a.
 Proof.
   intros cmp a b. unfold good. destruct cmp; try apply (kind_le_total SKInt);
@@ -490,19 +559,11 @@ Proof.
   rewrite He in H. exact H.
 Qed.
 
-Theorem extremum_list_mixed_partial : forall cmp invert i els x,
-  cmp = MGt \/ cmp = MLt ->
-  node_is_aoh true (NSeq i els) = false ->
-  (forall v c, In (Some v, c) (map (list_member node_str x) (enumerate els)) -> mixed_num v) ->
-  no_cross_equal (map (list_member node_str x) (enumerate els)) = true ->
-  exists res,
-    extremum lit re_search node_str cmp invert [] (NSeq i els) x = Ok res /\
-    forall c, In c res <-> selected cmp invert (map (list_member node_str x) (enumerate els)) c.
+Lemma mixed_selected_partial : forall cmp invert ms c,
+  cmp = MGt \/ cmp = MLt -> all_P mixed_num ms -> no_cross_equal ms = true ->
+  (mixed_selected cmp invert ms c <-> selected cmp invert ms c).
 Proof.
-  intros cmp invert i els x Hc Haoh HP Hg.
-  destruct (extremum_list_mixed cmp invert i els x Hc Haoh HP) as [res [E Hres]].
-  exists res. split; [exact E|]. intros c. rewrite Hres. clear Hres E.
-  set (ms := map (list_member node_str x) (enumerate els)) in *.
+  intros cmp invert ms c Hc HP Hg.
   assert (Hle : forall a b, good cmp (kind_le SKInt) a b -> good cmp (kind_le SKInt) b a ->
                             Qeq_bool (num_key a) (num_key b) = true).
   { intros a b G1 G2. apply Qeq_bool_iff. unfold good in *.
@@ -589,6 +650,48 @@ Proof.
            pose proof (Hle b w (Hb _ _ Hi0) (Hw _ _ Hb0)) as Heq.
            pose proof (no_cross_equal_spec ms b c0 w c Hg Hb0 Hi0 Heq) as Hty.
            unfold mixed_eq. rewrite Hty, Heq. reflexivity.
+Qed.
+
+Theorem extremum_list_mixed_partial : forall cmp invert i els x,
+  cmp = MGt \/ cmp = MLt ->
+  node_is_aoh true (NSeq i els) = false ->
+  (forall v c, In (Some v, c) (map (list_member node_str x) (enumerate els)) -> mixed_num v) ->
+  no_cross_equal (map (list_member node_str x) (enumerate els)) = true ->
+  exists res,
+    extremum lit re_search node_str cmp invert [] (NSeq i els) x = Ok res /\
+    forall c, In c res <-> selected cmp invert (map (list_member node_str x) (enumerate els)) c.
+Proof.
+  intros cmp invert i els x Hc Haoh HP Hg.
+  destruct (extremum_list_mixed cmp invert i els x Hc Haoh HP) as [res [E Hres]].
+  exists res. split; [exact E|]. intros c. rewrite Hres. apply mixed_selected_partial; assumption.
+Qed.
+
+Theorem extremum_aoh_mixed_partial : forall cmp invert attr i els x,
+  cmp = MGt \/ cmp = MLt ->
+  node_is_aoh true (NSeq i els) = true ->
+  (forall v c, In (Some v, c) (map (aoh_member node_str attr x) (enumerate els)) -> mixed_num v) ->
+  no_cross_equal (map (aoh_member node_str attr x) (enumerate els)) = true ->
+  exists res,
+    extremum lit re_search node_str cmp invert [attr] (NSeq i els) x = Ok res /\
+    forall c, In c res <-> selected cmp invert (map (aoh_member node_str attr x) (enumerate els)) c.
+Proof.
+  intros cmp invert attr i els x Hc Haoh HP Hg.
+  destruct (extremum_aoh_mixed cmp invert attr i els x Hc Haoh HP) as [res [E Hres]].
+  exists res. split; [exact E|]. intros c. rewrite Hres. apply mixed_selected_partial; assumption.
+Qed.
+
+Theorem extremum_hoh_mixed_partial : forall cmp invert attr i kvs x,
+  cmp = MGt \/ cmp = MLt ->
+  forallb (fun kv => is_map (snd kv)) kvs = true ->
+  (forall v c, In (Some v, c) (map (hoh_member node_str attr x) kvs) -> mixed_num v) ->
+  no_cross_equal (map (hoh_member node_str attr x) kvs) = true ->
+  exists res,
+    extremum lit re_search node_str cmp invert [attr] (NMap i kvs) x = Ok res /\
+    forall c, In c res <-> selected cmp invert (map (hoh_member node_str attr x) kvs) c.
+Proof.
+  intros cmp invert attr i kvs x Hc Hh HP Hg.
+  destruct (extremum_hoh_mixed cmp invert attr i kvs x Hc Hh HP) as [res [E Hres]].
+  exists res. split; [exact E|]. intros c. rewrite Hres. apply mixed_selected_partial; assumption.
 Qed.
 
 (* ---------- same-kind lists without a hypothesis about typed readings ---------- *)
